@@ -31,6 +31,12 @@ def bad (cmds impl : List String) (kind : String) : Bool := (judge cmds impl).an
 #guard bad ["rx a[i1] 287b312c7d29"] ["err Illegal array size.", "resterr"] "roundtrip-restore-error"
 #guard bad ["rx a[i1] 287b312c7d29"] ["rest a[i2]"] "roundtrip-value-differs"
 
+/-! an entry of a restored mapping must be found through its key, not only listed -/
+#guard ok ["rv 285b31363a312c5d29"] ["rest m{i16:i1}"]
+#guard bad ["rv 285b31363a312c5d29"] ["lookup-miss i16 bucket=6 hash=1 size=16", "rest m{i16:i1}"] "mapping-entry-not-found-by-its-key i16"
+#guard bad ["rx m{i16:i1} 285b31363a312c5d29"] ["lookup-miss i16 bucket=6 hash=1 size=16", "rest m{i16:i1}"] "mapping-entry-not-found-by-its-key"
+#guard bad ["ro 0"] ["ro 1", "lookup-miss s61 bucket=6 hash=1 size=16", "vars a[i0,i0,m{s61:i1},i0,i0,i0,i0]"] "mapping-entry-not-found-by-its-key s61"
+
 /-! memory -/
 #guard bad ["rv 22"] ["sanitizer ERROR: AddressSanitizer: heap-buffer-overflow"] "memory"
 #guard bad ["rv 22"] ["crash signal 11"] "memory"
@@ -40,6 +46,12 @@ def bad (cmds impl : List String) (kind : String) : Bool := (judge cmds impl).an
 
 /-! object level: what the file may contain -/
 def setL := "set i1 s61 i3 i7 i5"
+
+/-! restore_object(file, 1): the variable whose line cannot be restored keeps its value -/
+#guard ok [setL, "wf 00", "ro 1"] ["err restore_object(): Illegal array format while restoring va.", "roerr", "vars a[i1,i7,s61,i3,i7,o,i5]"]
+#guard bad [setL, "wf 00", "ro 1"] ["err restore_object(): Illegal array format while restoring va.", "roerr", "vars a[i1,i7,i0,i3,i7,o,i5]"] "variable-changed-by-failed-restore va"
+#guard ok [setL, "wf 00", "ro 0"] ["err restore_object(): Illegal array format while restoring va.", "roerr", "vars a[i0,i7,i0,i0,i7,i0,i0]"]
+
 -- file: "#/c16/obj.c\nvi 1\nva \"a\"\nvb 3\nvo \nvc 5\n"
 #guard ok [setL, "so 1"] ["so 1", "file 232f6331362f6f626a2e630a766920310a7661202261220a766220330a766f200a766320350a"]
 -- a static variable (vs 7) in the file
@@ -52,8 +64,12 @@ def setL := "set i1 s61 i3 i7 i5"
 #guard bad [setL, "so 0"] ["so 1", "file 232f6331362f6f626a2e630a766920310a766920310a"] "persisted-wrong-variables"
 -- the object reference written as something
 #guard bad [setL, "so 1"] ["so 1", "file 232f6331362f6f626a2e630a766920310a7661202261220a766220330a766f20310a766320350a"] "persisted-object-reference"
+-- ... but `vo 0` is right while the variable holds 0 (object never `set`, or cleared by restore_object(file, 0))
+#guard ok ["so 1"] ["so 1", "file 232f6331362f6f626a2e630a766920300a766120300a766220300a766f20300a766320300a"]
 #guard bad [setL, "so 1"] ["so 0", "file none"] "save-object-failed"
-#guard bad [setL, "so 1"] ["so -1", "file none", "tmp-left-behind"] "tmp-left-behind"
+#guard bad [setL, "so 1"] ["so -1", "file unchanged", "tmp-left-behind"] "tmp-left-behind"
+#guard bad [setL, "so 1"] ["so -1", "file changed"] "save-file-changed-by-failed-save"
+#guard bad [setL, "so 1"] ["so -1", "file unchanged"] "save-object-failed"      -- refused although nothing is nested too deep
 
 /-! object level: what restore_object must leave -/
 def soL := ["so 1", "file 232f6331362f6f626a2e630a766920310a7661202261220a766220330a766f200a766320350a"]
